@@ -168,6 +168,16 @@ class C13(Check):
                 js.append(dict(kind='wkt', srid=srid, n=n))
         for sep in ('comma', 'semi'):
             js.append(dict(kind='net', sep=sep, n=0))
+        # scale probes: long tracks (fixed observations except two symbolic ones), collections of several tracks in GPX (one file / one file per track)
+        for n in ([70] if q else [63, 64, 65, 129, 300]):
+            for srid in ('ENU', 'GEO'):
+                for lay in ([0, 1, 2, 3], [1, 2, 3, 0], [0, 1, 2, -1], [3, 0, 1, 2]):
+                    js.append(dict(kind='csv', srid=srid, sep='comma' if lay[0] == 0 else 'semi', lay=lay, n=n, long=True))
+        for srid in ('GEO',) if q else ('GEO', 'ENU'):
+            for many in ((3,) if q else (2, 3, 5)):
+                for one in (True, False):
+                    js.append(dict(kind='gpx', srid=srid, n=2, many=many, onefile=one))
+            js.append(dict(kind='gpx', srid=srid, n=70 if q else 300, long=True))
         for one in (True, False):
             js.append(dict(kind='csv', srid='GEO', sep='comma', lay=[0, 1, 2, 3], n=1, after_gpx=one))    # a history: GPX export (one file / one file per track), then CSV
         return js
@@ -192,6 +202,12 @@ class C13(Check):
         gi = (lambda nm, lo, hi: eng.int(nm, lo, hi)) if sym else (lambda nm, lo, hi: int(inp[nm]))
         obs = []
         for i in range(n):
+            if job.get('long') and i not in (1, n - 2):
+                geo = job['srid'] == 'GEO'
+                obs.append(((((i * 37) % 300 - 150) + 0.125 * (i % 8), ((i * 17) % 160 - 80) + 0.0625 * (i % 16), (i * 13) % 500 - 100 + 0.5 * (i % 2)) if geo else
+                            (((i * 3701) % 200000 - 100000) + 0.125 * (i % 8), ((i * 1709) % 160000 - 80000) + 0.0625 * (i % 16), (i * 13) % 500 - 100 + 0.5 * (i % 2)),
+                            (2000 + i % 50, 1 + i % 12, 1 + i % 28, i % 24, (i * 7) % 60, (i * 11) % 60)))
+                continue
             xyz = (g('x%d' % i, -lim, lim), g('y%d' % i, -90 if job['srid'] == 'GEO' else -lim, 90 if job['srid'] == 'GEO' else lim), g('z%d' % i, -9000, 9000))
             t = (gi('Y%d' % i, 1970, 2099), gi('M%d' % i, 1, 12), gi('D%d' % i, 1, 28), gi('h%d' % i, 0, 23), gi('m%d' % i, 0, 59), gi('s%d' % i, 0, 59))
             obs.append((xyz, t))
@@ -254,6 +270,51 @@ class C13(Check):
                 o = back.getObs(i)
                 comps.append((o.position.getX(), xyz[0], None, 'WKT: the first planimetric coordinate is parsed back unchanged'))
                 comps.append((o.position.getY(), xyz[1], None, 'WKT: the second planimetric coordinate is parsed back unchanged'))
+            return comps, bad
+        if kind == 'gpx' and job.get('many'):
+            # a collection of several tracks; the symbolic observations are those of the track at index 1
+            import shutil
+            from tracklib.core import TrackCollection
+            tw, trd, tf = sys.modules[TW], sys.modules[TR], sys.modules[TF]
+            k = job['many']
+            allobs = []
+            for j in range(k):
+                allobs.append(list(obs) if j == 1 else [((1.5 + j + 0.25 * i, 2.25 - j, 10.0 * j + i), (2001 + j, 2, 3 + i, 4, 5, 6 + i)) for i in range(len(obs))])
+            coll = TrackCollection([Track([Obs(make_coords(job['srid'], *xyz), ObsTime(*ts)) for xyz, ts in ob], track_id=100 + j) for j, ob in enumerate(allobs)])
+            d = tempfile.mkdtemp(prefix='verif-c13-', dir=SCRATCH)
+            save = ObsTime.getReadFormat()
+            fmt = tf.TrackFormat({'ext': 'GPX', 'srid': job['srid'], 'type': 'trk'})
+            try:
+                if job['onefile']:
+                    tw.TrackWriter.writeToGpx(coll, os.path.join(d, 'all.gpx'))
+                else:
+                    tw.TrackWriter.writeToGpx(coll, d, oneFile=False)
+                ObsTime.setReadFormat('4Y-2M-2DT2h:2m:2s')
+                if job['onefile']:
+                    got = trd.TrackReader.readFromFile(os.path.join(d, 'all.gpx'), fmt)
+                    backs = [got[j] for j in range(len(got))] if got is not None else []
+                else:
+                    backs = []
+                    for j in range(k):
+                        got = trd.TrackReader.readFromFile(os.path.join(d, '%d.gpx' % (100 + j)), fmt)
+                        if got is None or len(got) != 1:
+                            bad.append('a per-track GPX file read back does not contain exactly one track')
+                            return comps, bad
+                        backs.append(got[0])
+            finally:
+                ObsTime.setReadFormat(save)
+                shutil.rmtree(d, ignore_errors=True)
+            if len(backs) != k or any(b.size() != len(obs) for b in backs):
+                bad.append('the GPX collection read back does not have the same tracks with the same numbers of observations')
+                return comps, bad
+            for j in range(k):
+                for i, (xyz, ts) in enumerate(allobs[j]):
+                    o = backs[j].getObs(i)
+                    for c, gv in enumerate((o.position.getX(), o.position.getY(), o.position.getZ())):
+                        comps.append((gv, xyz[c], 1e-8, 'GPX collection: a coordinate is read back equal to the written precision') + (('gpx_enu_elevation',) if (c == 2 and job['srid'] == 'ENU') else ()))
+                    rt = o.timestamp
+                    for a, b in zip((rt.year, rt.month, rt.day, rt.hour, rt.min, rt.sec), ts):
+                        comps.append((a, b, None, 'GPX collection: the timestamp is read back identical to the second'))
             return comps, bad
         if kind == 'gpx':
             tw, trd, tf = sys.modules[TW], sys.modules[TR], sys.modules[TF]
